@@ -425,6 +425,8 @@ def master_main(a):
     summ = ' '.join(f'{k}={v}' for k, v in sorted(counters.items()) if not k.startswith('_'))
     print(f'[{prop} {tier} seed={seed}] cases={evaluations} distinct_nontrivial={len(sigs)} wall={wall}s {summ[:1500]}')
     if new_viol:
+        for r in inconclusive:
+            print(f'  (also inconclusive: {r[:600]})')
         return 1
     if inconclusive:
         for r in inconclusive:
